@@ -42,7 +42,7 @@ class C02(Property):
         rng = Rng(seed + 2)
         nrand = 1200 if tier == "quick" else 25000
         for i in range(nrand):
-            ev = G.rand_tree_events(rng, rng.choice([6, 20, 60, 200]), toks=GN.TOKS_NAV + ["X100", "X101", "T7:119070"], wide=rng.chance(1, 3))
+            ev = G.rand_tree_events(rng, rng.choice([6, 20, 60, 200]), toks=GN.TOKS_NAV + ["X100", "X101", "X104", "T104:233", "T7:119070"], wide=rng.chance(1, 3))
             t = build_tree(ev)
             prog = GN.random_program(rng, t, rng.choice([5, 20, 80]))
             res.append(("random", "N %s %s | %s" % ("pr"[i % 2], " ".join(ev), " ".join(prog))))
